@@ -356,7 +356,7 @@ fn main() {
                     let items = case["items"].as_array().cloned().unwrap_or_default();
                     let type_base = items.iter().position(|it| it["k"] == "type").map(|i| 1001 + i as u64);
                     let is_fn_item = |g: u64| g >= 1001 && g < 1100 && items.get((g - 1001) as usize).map_or(false, |it| it["k"] == "fn");
-                    let is_ctor = |g: u64| type_base.map_or(false, |b| g == b + 100 || g == b + 200 || g == b + 600) || (g >= 2000 && (g % 1000 == 3 || g % 1000 == 4 || g % 1000 == 9));
+                    let is_ctor = |g: u64| type_base.map_or(false, |b| g == b + 100 || g == b + 200 || g == b + 600) || (g >= 2000 && (g % 1000 == 3 || g % 1000 == 4 || g % 1000 == 9 || g % 1000 == 13));
                     for t in prog.toks.iter() {
                         // expectation: Some(Some(tag)) / Some(None) = must not be highlighted / None = not decided here
                         let exp: Option<Option<&str>> = match t.r.as_str() {
